@@ -4,6 +4,7 @@ import (
 	"context"
 	"encoding/base64"
 	"fmt"
+	"io"
 	"math"
 	"math/big"
 	"net"
@@ -142,6 +143,10 @@ func c15API(c *Ctx, optName string, opts ...larking.MuxOption) {
 			go func() { done <- st.RecvMsg(fx.NewMsg("Req")) }()
 			select {
 			case err := <-done:
+				if err == io.EOF { // what a clean half-close looks like
+					released <- "recv-eof"
+					return nil
+				}
 				if err != nil {
 					released <- "recv-error"
 					return err
@@ -182,6 +187,12 @@ func c15API(c *Ctx, optName string, opts ...larking.MuxOption) {
 	}
 	fx, err := NewFixture([]*MethodSpec{
 		{Name: "Dl", In: "Req", Out: "Reply", Unary: unary},
+		{Name: "DlS", In: "Req", Out: "Reply", ClientStream: true, ServerStream: true, Stream: func(fx *Fixture, ms *MethodSpec, st grpc.ServerStream) error {
+			mu.Lock()
+			invoked++
+			mu.Unlock()
+			return nil
+		}},
 		{Name: "Block", In: "Req", Out: "Reply", Unary: blockUnary, Rule: postRule("/c15/block", "*")},
 		{Name: "BlockRecv", In: "Req", Out: "Reply", ClientStream: true, Stream: blockRecv, Rule: postRule("/c15/recv", "*")},
 		{Name: "BlockBidi", In: "Req", Out: "Reply", ClientStream: true, ServerStream: true, Stream: blockRecv},
@@ -219,6 +230,18 @@ func c15API(c *Ctx, optName string, opts ...larking.MuxOption) {
 			continue
 		}
 		if !legal {
+			// the same header on a streaming method: its handler runs as soon as the stream is set up
+			rs := httptest.NewRequest("POST", "/verif.v1.Svc/DlS", strings.NewReader(string(grpcFrame(0, nil))))
+			rs.ProtoMajor, rs.ProtoMinor = 2, 0
+			rs.Header.Set("Content-Type", "application/grpc")
+			rs.Header.Set("Grpc-Timeout", tv)
+			fx.Serve(rs)
+			mu.Lock()
+			invS := invoked - inv
+			mu.Unlock()
+			if invS != 0 {
+				c.SpecFail("api-deadline", optName+" "+tv+" (streaming method)", fmt.Sprintf("stream handler invoked %d times", invS), "refused without invoking the handler", "C15/api/malformed-invokes-stream-handler", "malformed grpc-timeout reaches a streaming handler")
+			}
 			if inv != 0 || rec.Header().Get("Grpc-Status") == "0" {
 				key := "C15/api/malformed-invokes-handler"
 				if strings.HasPrefix(tv, "+") || strings.HasPrefix(tv, "-") {
